@@ -174,3 +174,70 @@ func TestNativeC16RetryAfterFailedStartUsesFreshConnection(t *testing.T) {
 	}
 	st.Stop()
 }
+
+type slowCfgPlugin struct{ delay time.Duration }
+
+func (p slowCfgPlugin) Configure(ctx context.Context, config, runtime, version string) (api.EventMask, error) {
+	time.Sleep(p.delay)
+	return 0, nil
+}
+func (slowCfgPlugin) RunPodSandbox(context.Context, *api.PodSandbox) error { return nil }
+
+type cfgThenDropRuntime struct{ fakeRuntime }
+
+func (f *cfgThenDropRuntime) RegisterPlugin(ctx context.Context, req *api.RegisterPluginRequest) (*api.Empty, error) {
+	go api.NewPluginClient(f.rpcc).Configure(context.Background(), &api.ConfigureRequest{RegistrationTimeout: 5000, RequestTimeout: 2000})
+	go func() {
+		time.Sleep(50 * time.Millisecond)
+		f.conn.Close()
+	}()
+	return &api.Empty{}, nil
+}
+
+type neverConfiguresRuntime struct{ fakeRuntime }
+
+func (f *neverConfiguresRuntime) RegisterPlugin(ctx context.Context, req *api.RegisterPluginRequest) (*api.Empty, error) {
+	return &api.Empty{}, nil
+}
+
+func serveRuntime(t *testing.T, f *fakeRuntime, impl api.RuntimeService, conn stdnet.Conn) {
+	f.conn = conn
+	f.mux = multiplex.Multiplex(conn)
+	pconn, _ := f.mux.Open(multiplex.PluginServiceConn)
+	f.rpcc = ttrpc.NewClient(pconn)
+	f.rpcs, _ = ttrpc.NewServer()
+	l, _ := f.mux.Listen(multiplex.RuntimeServiceConn)
+	api.RegisterRuntimeService(f.rpcs, impl)
+	go f.rpcs.Serve(context.Background(), l)
+}
+
+// F6d: the configuration result of a session whose connection was lost must not be taken for the next one.
+func TestNativeC16StaleConfigurationResult(t *testing.T) {
+	p1, r1 := stdnet.Pipe()
+	rt1 := &cfgThenDropRuntime{}
+	serveRuntime(t, &rt1.fakeRuntime, rt1, r1)
+	conn := p1
+	st, err := New(slowCfgPlugin{delay: 400 * time.Millisecond}, WithPluginName("plugin"), WithPluginIdx("00"),
+		WithDialer(func(string) (stdnet.Conn, error) { return conn, nil }), WithOnClose(func() {}))
+	if err != nil {
+		t.Fatal(err)
+	}
+	if err := st.Start(context.Background()); err == nil {
+		t.Skip("first start succeeded (configuration arrived before the connection was lost)")
+	}
+	p2, r2 := stdnet.Pipe()
+	rt2 := &neverConfiguresRuntime{}
+	serveRuntime(t, &rt2.fakeRuntime, rt2, r2)
+	conn = p2
+	done := make(chan error, 1)
+	go func() { done <- st.Start(context.Background()) }()
+	select {
+	case err := <-done:
+		if err == nil {
+			t.Fatalf("REPRODUCED F6d: the second Start succeeded although its runtime never configured the plugin (stale result of the first session)")
+		}
+		t.Logf("second start failed as expected: %v", err)
+	case <-time.After(2 * time.Second):
+		t.Logf("second start still waiting for its own configuration after 2s (correct)")
+	}
+}
